@@ -246,7 +246,13 @@ def _cb_sync(ctx, cnt, fc):
             retval = ctx.out_object
 
         if cnt == 0 and fc._ostr:
-            fc._server.get_out_string(ctx)
+            try:
+                fc._server.get_out_string(ctx)
+            except Exception as e:
+                # the call does end in an error, listeners are to know
+                ctx.out_error = e
+                ctx.fire_event('method_exception_object')
+                raise
             retval = ctx.out_string
 
     if cnt > 0:
